@@ -706,6 +706,12 @@ func (b *bitstream) readNsecs(length uint64) (int, bool, uint8, error) {
 		return 0, false, 0, err
 	}
 
+	// ShiftL(9) panics when the shifted scale leaves the int32 range.
+	if int64(d.scale)-9 < math.MinInt32 {
+		msg := fmt.Sprintf("invalid timestamp fraction: %v", d)
+		return 0, false, 0, &SyntaxError{msg, b.pos}
+	}
+
 	nsec, err := d.ShiftL(9).trunc()
 	if err != nil || nsec < 0 || nsec > 999999999 {
 		msg := fmt.Sprintf("invalid timestamp fraction: %v", d)
